@@ -292,10 +292,12 @@ def selectFindsColumn (a : AggArg) : Bool :=
 
 /-! ### the repaired variants
 
-  Three functions of the current code depart from the specification (Props/C17.lean).  Their repaired
-  counterparts are modelled next to them and proved equal to the specification in full, and the driver
-  selects by `repoState` — after a fix lands in /repo, flip the corresponding field (one line) and the
-  correspondence stream keeps checking the code that exists. -/
+  Three functions of the code as first pinned departed from the specification (Props/C17.lean); they
+  have been repaired in /repo.  `lastValueFixed` (setNthValue with `fromLast`: the frame of the
+  unreversed partition scanned from `High` down), `nthValueFixed` (`if count < n { val = NULL }`) and
+  `aggOverFixed` (capacity clamped at 0) model the code that exists now; the earlier definitions
+  (`lastValue`, `nthValue`, `aggOver`) are kept, with their counterexamples, as the record of the
+  defects.  The driver selects by `repoState`. -/
 
 structure CodeState where
   lastValueMirrorsFrame : Bool      -- LAST_VALUE computes its frames on the reversed partition (pre-finding F14)
@@ -303,7 +305,7 @@ structure CodeState where
   invertedFramePanics : Bool        -- windowValues' makeslice panics when High < Low - 1
 
 /-- the state of /repo this model describes -/
-def repoState : CodeState := { lastValueMirrorsFrame := true, nthValueLeaksLastVisited := true, invertedFramePanics := true }
+def repoState : CodeState := { lastValueMirrorsFrame := false, nthValueLeaksLastVisited := false, invertedFramePanics := false }
 
 /-- LAST_VALUE repaired: the frames of the partition as it stands, each scanned from its end -/
 def lastValueFixed (cells : Nat → Val) (ign : Bool) (w : Window) (p : List Nat) : List (Nat × Val) :=
